@@ -49,13 +49,19 @@ def enum_hook(repo, fi):
 
 
 def cemi_received(chk: Check, repo: Repo) -> None:
+    """Decision table of the receive callback.  The request's matcher is consulted here (slot `_matches`, written by
+    request() next to `_pending`): only a frame it accepts - or any frame when the request has none - completes the
+    pending future; a rejected frame leaves the future pending for the answer behind it; a matcher that raises fails the
+    request instead of the transport's callback."""
     fi = repo.func(M, "_DeviceManagementConnection._cemi_received")
     chk.unit(fi)
     cfg = CFG(fi.node)
     exc = ExcTable(repo)
-    for parse, code, pend, cb in product(("ok", "CouldNotParseCEMI", "UnsupportedCEMIMessage", "ValueError", "IndexError"), ("M_PROP_INFO_IND", "M_PROP_READ_CON", "M_PROP_WRITE_CON"), ("none", "pending", "done"), ("none", "ok", "raises")):
-        if parse != "ok" and (code != "M_PROP_READ_CON" or cb != "none"):
+    for parse, code, pend, cb, mt in product(("ok", "CouldNotParseCEMI", "UnsupportedCEMIMessage", "ValueError", "IndexError"), ("M_PROP_INFO_IND", "M_PROP_READ_CON", "M_PROP_WRITE_CON"), ("none", "pending", "done"), ("none", "ok", "raises"), ("none", "accepts", "rejects", "raises")):
+        if parse != "ok" and (code != "M_PROP_READ_CON" or cb != "none" or mt != "none"):
             continue
+        if mt != "none" and (cb != "none" or pend == "none"):
+            continue  # the matcher slot is written and cleared together with the pending slot (request scenarios)
         frame = Obj("CEMIFrame", "rx", (("code", EnumMember(CODE, code)),))
         def cm(c: ast.Call, env):
             n = call_name(c)
@@ -67,21 +73,36 @@ def cemi_received(chk: Check, repo: Repo) -> None:
                 return [Outcome(None, pend == "done")]
             if n == "self._pending.set_result":
                 return [Outcome(f"SET_RESULT({box['am'].ev(c.args[0], env, {})!r})", None)]
+            if n == "self._pending.set_exception":
+                return [Outcome("SET_EXCEPTION", None)]
+            if n == "self._matches":
+                arg = box["am"].ev(c.args[0], env, {}) if c.args else None
+                if mt == "raises":
+                    return [Outcome(f"MATCH({arg!r})", Raise("ValueError"))]
+                return [Outcome(f"MATCH({arg!r})", mt == "accepts")]
             if n.startswith("logger.") or n.endswith(".hex"):
                 return [Outcome(None, None)]
             return None
         box = {}
         am = AbsMachine(cfg, exc, cm, enum_hook(repo, fi))
         box["am"] = am
-        env = {"self._pending": None if pend == "none" else Obj("Future", "f"), "self.indication_callback": None if cb == "none" else Obj("fn", "cb")}
-        got = {(tuple(t for t in p.env.get("trace", ()) if not t.startswith("raise:")), p.end_kind) for p in Explorer(cfg, repo, am.step).run(cfg.entry, [], env)}
+        env = {"self._pending": None if pend == "none" else Obj("Future", "f"), "self.indication_callback": None if cb == "none" else Obj("fn", "cb"), "self._matches": None if mt == "none" else Obj("fn", "m")}
+        got = {(tuple(t for t in p.env.get("trace", ()) if not t.startswith("raise:") and not t.startswith("MATCH(")), p.end_kind) for p in Explorer(cfg, repo, am.step).run(cfg.entry, [], env)}
+        asked = {t for p in Explorer(cfg, repo, am.step).run(cfg.entry, [], env) for t in p.env.get("trace", ()) if t.startswith("MATCH(")}
         if parse != "ok":
             want = {((), "exit")}
         elif code == "M_PROP_INFO_IND":
             want = {((("INDICATION_CB",) if cb != "none" else ()), "exit")}
+        elif pend != "pending":
+            want = {((), "exit")}
+        elif mt in ("none", "accepts"):
+            want = {((f"SET_RESULT({frame!r})",), "exit")}
+        elif mt == "rejects":
+            want = {((), "exit")}
         else:
-            want = {(((f"SET_RESULT({frame!r})",) if pend == "pending" else ()), "exit")}
-        chk.ob("received-frame-cell", fi.site(), got == want, f"parse={parse} code={code} pending={pend} indication_callback={cb}: {sorted(map(str, got))}; reference {sorted(map(str, want))}", key=f"rx|{parse}|{code}|{pend}|{cb}" + ("" if got == want else f"|{sorted(map(str, got))}"))
+            want = {(("SET_EXCEPTION",), "exit")}
+        ok = got == want and (mt == "none" or code == "M_PROP_INFO_IND" or pend != "pending" or asked == {f"MATCH({frame!r})"})
+        chk.ob("received-frame-cell", fi.site(), ok, f"parse={parse} code={code} pending={pend} indication_callback={cb} matcher={mt}: {sorted(map(str, got))} asked {sorted(asked)}; reference {sorted(map(str, want))}", key=f"rx|{parse}|{code}|{pend}|{cb}|{mt}" + ("" if ok else f"|{sorted(map(str, got))}"))
 
 
 def request(chk: Check, repo: Repo) -> None:
@@ -94,21 +115,21 @@ def request(chk: Check, repo: Repo) -> None:
     chk.ob("send-under-request-lock", fi.site(), len(sends) == 1 and "self._request_lock" in enclosing_with_items(sends[0].withs), "_send_request is awaited inside `async with self._request_lock`", key="send-under-lock")
     callers = sorted({f.qualname for f, c in call_sites(repo, "_send_request") if f.module.name == M})
     chk.ob("send-callers", fi.site(), callers == ["_DeviceManagementConnection.request"], f"_send_request callers: {callers}", key="send-callers")
-    ws = [w for w in attr_writes(repo, "_pending", include_mutators=False) if w.func.module.name == M]
-    chk.ob("pending-slot-writers", fi.site(), sorted({w.func.qualname for w in ws}) == ["_DeviceManagementConnection.__init__", "_DeviceManagementConnection.request"], f"_pending writers: {sorted({w.func.qualname for w in ws})}", key="pending-writers")
+    for slot in ("_pending", "_matches"):
+        ws = [w for w in attr_writes(repo, slot, include_mutators=False) if w.func.module.name == M]
+        chk.ob("pending-slot-writers", fi.site(), sorted({w.func.qualname for w in ws}) == ["_DeviceManagementConnection.__init__", "_DeviceManagementConnection.request"], f"{slot} writers: {sorted({w.func.qualname for w in ws})}", key=f"pending-writers|{slot}")
     lock = [w for w in attr_writes(repo, "_request_lock", include_mutators=False) if w.func.module.name == M]
     chk.ob("request-lock-slot", fi.site(), len(lock) == 1 and lock[0].func.name == "__init__" and call_name(lock[0].stmt.value) == "asyncio.Lock", "one asyncio.Lock created in __init__", key="request-lock-slot")
+    # request() itself: from the hand-over to the transport until it leaves, the pending future and the request's matcher
+    # are both in their slots (so the receive callback can tell the answer from a stale frame also during the UDP
+    # acknowledgement wait); it returns what the future was completed with; both slots are empty again on every way out
     scenarios = {
         "no matcher, answer": (None, ["answer"]),
-        "matcher accepts first": ("fn", ["answer:accept"]),
-        "matcher rejects first, accepts second": ("fn", ["answer:reject", "answer:accept"]),
-        "matcher rejects, then timeout": ("fn", ["answer:reject", "timeout"]),
+        "matcher, answer": ("fn", ["answer"]),
         "timeout": ("fn", ["timeout"]),
+        "matcher raised in the receive callback": ("fn", ["matcher-raised"]),
         "closed by _stop (future cancelled, channel None)": ("fn", ["cancel:closed"]),
-        "matcher rejects first, then closed by _stop": ("fn", ["answer:reject", "cancel:closed"]),
         "task cancelled (channel still open)": ("fn", ["cancel:task"]),
-        "matcher rejects first, then task cancelled": ("fn", ["answer:reject", "cancel:task"]),
-        "stale answer and close in the same loop iteration (nothing left to cancel)": ("fn", ["answer:reject+closed", "timeout"]),
         "send fails": ("fn", ["send:fail"]),
         "no connection": ("fn", ["nochannel"]),
     }
@@ -116,14 +137,14 @@ def request(chk: Check, repo: Repo) -> None:
         def cm(c: ast.Call, env):
             n = call_name(c)
             if n == "self._send_request":
-                return [Outcome("SEND:fail", Raise("CommunicationError"))] if script[0] == "send:fail" else [Outcome("SEND", None)]
+                ev = f"SEND[{env.get('self._pending')!r},{env.get('self._matches')!r}]"
+                return [Outcome(ev + ":fail", Raise("CommunicationError"))] if script[0] == "send:fail" else [Outcome(ev, None)]
             if n.endswith("create_future"):
                 k = env.get("#futures", 0)
                 env["#futures"] = k + 1
                 return [Outcome(None, Obj("Future", f"f{k}"))]
             if n == "matches":
-                i = env.get("#answers", 1) - 1
-                return [Outcome(f"MATCH:{script[i].split(':')[1].split('+')[0]}", script[i].endswith("accept"))]
+                return [Outcome("MATCH-IN-REQUEST", True)]
             if isinstance(c.func, ast.Attribute) and c.func.attr == "cancelled":
                 rv = am.ev(c.func.value, env, {})
                 if isinstance(rv, Obj) and rv.cls == "Future":
@@ -137,19 +158,23 @@ def request(chk: Check, repo: Repo) -> None:
 
         def step(node, env):
             a = node.ast
-            awaited = am.ev(a.value.value, env, {}) if node.kind == "stmt" and isinstance(a, ast.Assign) and isinstance(a.value, ast.Await) else None
+            aw = a.value if node.kind == "stmt" and isinstance(a, (ast.Assign, ast.Return, ast.Expr)) and isinstance(getattr(a, "value", None), ast.Await) else None
+            awaited = am.ev(aw.value, env, {}) if aw is not None else None
             if isinstance(awaited, Obj) and awaited.cls == "Future":  # the wait for the answer, however the code refers to the future
                 i = env.get("#answers", 0)
                 ev = script[i] if i < len(script) else "timeout"
                 e2 = dict(env); e2["#answers"] = i + 1
                 tr = tuple(env.get("trace", ()))
                 if ev.startswith("answer"):
-                    if ev.endswith("+closed"):
-                        e2["self.communication_channel"] = None  # _stop() ran after the future was answered: it found nothing to cancel
-                    e2["trace"] = tr + (f"AWAIT({awaited!r})",)
-                    e2[ast.unparse(a.targets[0])] = Obj("CEMIFrame", f"answer{i}")
+                    e2["trace"] = tr + (f"AWAIT({awaited!r})[{env.get('self._pending')!r},{env.get('self._matches')!r}]",)
+                    ans = Obj("CEMIFrame", f"answer{i}")
+                    if isinstance(a, ast.Return):
+                        e2["#ret"] = ans
+                        return [("return", e2)]
+                    if isinstance(a, ast.Assign):
+                        e2[ast.unparse(a.targets[0])] = ans
                     return [("next", e2)]
-                excn = "TimeoutError" if ev == "timeout" else "CancelledError"
+                excn = {"timeout": "TimeoutError", "matcher-raised": "ValueError"}.get(ev, "CancelledError")
                 if ev.startswith("cancel"):
                     e2["#cancelled"] = awaited
                     if ev == "cancel:closed":
@@ -159,38 +184,37 @@ def request(chk: Check, repo: Repo) -> None:
                 return [(f"goto:{am._exc_target(node, excn)}", e2)]
             return base(node, env)
 
-        env = {"matches": Obj("fn", "m") if matcher else None, "self.communication_channel": None if script[0] == "nochannel" else 5}
+        mobj = Obj("fn", "m") if matcher else None
+        env = {"matches": mobj, "self.communication_channel": None if script[0] == "nochannel" else 5}
         paths = Explorer(cfg, repo, step, max_steps=300).run(cfg.entry, [], env)
         res = set()
         for p in paths:
             tr = tuple(t for t in p.env.get("trace", ()) if not t.startswith("raise:"))
             out = repr(p.env.get("#ret")) if p.end_kind == "exit" else f"raise {p.env.get('#raised')}"
-            res.add((tr, out, repr(p.env.get("self._pending"))))
-        F0, F1 = repr(Obj("Future", "f0")), repr(Obj("Future", "f1"))
-        A0, A1 = repr(Obj("CEMIFrame", "answer0")), repr(Obj("CEMIFrame", "answer1"))
+            res.add((tr, out, repr(p.env.get("self._pending")), repr(p.env.get("self._matches"))))
+        F0 = repr(Obj("Future", "f0"))
+        A0 = repr(Obj("CEMIFrame", "answer0"))
+        S = f"SEND[{F0},{mobj!r}]"
+        W = f"AWAIT({F0})[{F0},{mobj!r}]"
         want = {
-            "no matcher, answer": {(("SEND", f"AWAIT({F0})"), A0, "None")},
-            "matcher accepts first": {(("SEND", f"AWAIT({F0})", "MATCH:accept"), A0, "None")},
-            "matcher rejects first, accepts second": {(("SEND", f"AWAIT({F0})", "MATCH:reject", f"AWAIT({F1})", "MATCH:accept"), A1, "None")},
-            "matcher rejects, then timeout": {(("SEND", f"AWAIT({F0})", "MATCH:reject", f"AWAIT({F1}):TimeoutError"), "raise CommunicationError", "None")},
-            "timeout": {(("SEND", f"AWAIT({F0}):TimeoutError"), "raise CommunicationError", "None")},
-            "closed by _stop (future cancelled, channel None)": {(("SEND", f"AWAIT({F0}):CancelledError"), "raise CommunicationError", "None")},
-            "matcher rejects first, then closed by _stop": {(("SEND", f"AWAIT({F0})", "MATCH:reject", f"AWAIT({F1}):CancelledError"), "raise CommunicationError", "None")},
-            "task cancelled (channel still open)": {(("SEND", f"AWAIT({F0}):CancelledError"), "raise CancelledError", "None")},
-            "matcher rejects first, then task cancelled": {(("SEND", f"AWAIT({F0})", "MATCH:reject", f"AWAIT({F1}):CancelledError"), "raise CancelledError", "None")},
-            "stale answer and close in the same loop iteration (nothing left to cancel)": {(("SEND", f"AWAIT({F0})", "MATCH:reject"), "raise CommunicationError", "None")},
-            "send fails": {(("SEND:fail",), "raise CommunicationError", "None")},
-            "no connection": {((), "raise CommunicationError", repr(None))},
+            "no matcher, answer": {((S, W), A0, "None", "None")},
+            "matcher, answer": {((S, W), A0, "None", "None")},
+            "timeout": {((S, f"AWAIT({F0}):TimeoutError"), "raise CommunicationError", "None", "None")},
+            "matcher raised in the receive callback": {((S, f"AWAIT({F0}):ValueError"), "raise ValueError", "None", "None")},
+            "closed by _stop (future cancelled, channel None)": {((S, f"AWAIT({F0}):CancelledError"), "raise CommunicationError", "None", "None")},
+            "task cancelled (channel still open)": {((S, f"AWAIT({F0}):CancelledError"), "raise CancelledError", "None", "None")},
+            "send fails": {((S + ":fail",), "raise CommunicationError", "None", "None")},
+            "no connection": {((), "raise CommunicationError", repr(None), repr(None))},
         }[label]
-        chk.ob("request-scenario", fi.site(), res == want, f"{label}: {sorted(map(str, res))}; reference {sorted(map(str, want))}", key=f"req|{label}" + ("" if res == want else f"|{sorted(map(str, res))}"))
+        chk.ob("request-scenario", fi.site(), res == want, f"{label}: (events, outcome, _pending, _matches) = {sorted(map(str, res))}; reference {sorted(map(str, want))}", key=f"req|{label}" + ("" if res == want else f"|{sorted(map(str, res))}"))
     # every future awaited is the one stored in the pending slot
     # the local(s) holding the awaited future: names assigned from create_future()
     fut_names = {(n.ast.targets[0] if isinstance(n.ast, ast.Assign) else n.ast.target).id for n in cfg.nodes if isinstance(n.ast, (ast.Assign, ast.AnnAssign)) and n.ast.value is not None and isinstance(n.ast.targets[0] if isinstance(n.ast, ast.Assign) else n.ast.target, ast.Name) and isinstance(n.ast.value, ast.Call) and call_name(n.ast.value).endswith("create_future")}
     assigns = [n for n in cfg.nodes if isinstance(n.ast, ast.Assign) and ast.unparse(n.ast.targets[0]) == "self._pending" and isinstance(n.ast.value, ast.Name) and n.ast.value.id in fut_names]
     news = [n for n in cfg.nodes if isinstance(n.ast, (ast.Assign, ast.AnnAssign)) and isinstance(n.ast.targets[0] if isinstance(n.ast, ast.Assign) else n.ast.target, ast.Name) and (n.ast.targets[0] if isinstance(n.ast, ast.Assign) else n.ast.target).id in fut_names]
-    chk.ob("awaited-future-is-the-slot", fi.site(), len(assigns) == len(news) == 2 and len(fut_names) == 1, f"every new future is stored into self._pending ({len(news)} creations, {len(assigns)} stores)", key="future-stored")
-    tm = [w for n in cfg.nodes if n.kind == "stmt" and isinstance(n.ast, ast.Assign) and isinstance(n.ast.value, ast.Await) and isinstance(n.ast.value.value, ast.Name) and n.ast.value.value.id in fut_names for w in enclosing_with_items(n.withs)]
-    chk.ob("answer-deadline", fi.site(), "asyncio.timeout(DEVICE_CONFIGURATION_REQUEST_TIMEOUT)" in tm, "waiting for the answer is bounded by asyncio.timeout(DEVICE_CONFIGURATION_REQUEST_TIMEOUT), covering re-waits after rejected frames", key="answer-deadline")
+    chk.ob("awaited-future-is-the-slot", fi.site(), len(assigns) == len(news) >= 1 and len(fut_names) == 1, f"every new future is stored into self._pending ({len(news)} creations, {len(assigns)} stores)", key="future-stored")
+    tm = [w for n in cfg.nodes if n.kind == "stmt" and isinstance(n.ast, (ast.Assign, ast.Return, ast.Expr)) and isinstance(getattr(n.ast, "value", None), ast.Await) and isinstance(n.ast.value.value, ast.Name) and n.ast.value.value.id in fut_names for w in enclosing_with_items(n.withs)]
+    chk.ob("answer-deadline", fi.site(), "asyncio.timeout(DEVICE_CONFIGURATION_REQUEST_TIMEOUT)" in tm, "waiting for the answer is bounded by asyncio.timeout(DEVICE_CONFIGURATION_REQUEST_TIMEOUT)", key="answer-deadline")
 
 
 def matchers(chk: Check, repo: Repo) -> None:
@@ -400,11 +424,25 @@ def design_gaps(chk: Check, repo: Repo) -> None:
     sets = [n for n in cfg.nodes if n.kind == "stmt" and n.ast is not None and any(call_name(c) == "self._pending.set_result" for c in calls(n.ast))]
     keeps = [n for n in cfg.nodes if n.kind == "stmt" and n.ast is not None and any(isinstance(c.func, ast.Attribute) and c.func.attr in ("append", "put_nowait", "appendleft") for c in calls(n.ast))]
     # (a) a frame that arrives while the previous one has not been taken by the request task yet
-    chk.ob("answers-arriving-back-to-back-are-all-seen", cr.site(), bool(keeps) or not sets, "_cemi_received hands a frame over by completing the one-shot future `_pending`; " + ("frames arriving before the request task installs the next future are kept" if keeps else "a frame arriving before the request task has run again finds the future done and is dropped as unexpected - the matching answer behind a stale one in the same TCP segment is lost"), key="cemi-received|frame-dropped-between-answers")
+    # the future is completed only under the request's matcher: where set_result runs, a fact holds whose expression -
+    # locals resolved through their reaching definitions - calls the matcher slot with the received frame
+    mf = cfg.must_facts()
+    def consults_matcher(n) -> bool:
+        for t, v in mf[n.id]:
+            if not v:
+                continue
+            try:
+                e = cfg.symbolic(n.id, ast.parse(t, mode="eval").body)
+            except SyntaxError:
+                continue
+            if any(isinstance(c, ast.Call) and call_name(c) == "self._matches" for c in ast.walk(e)):
+                return True
+        return False
+    matcher_first = bool(sets) and all(consults_matcher(n) for n in sets)
+    chk.ob("answers-arriving-back-to-back-are-all-seen", cr.site(), bool(keeps) or not sets or matcher_first, "_cemi_received hands a frame over by completing the one-shot future `_pending`; " + ("frames arriving before the request task installs the next future are kept" if keeps else "only a frame the request's matcher accepts completes it - a stale frame leaves it pending for the answer behind it" if matcher_first else "a frame arriving before the request task has run again finds the future done and is dropped as unexpected - the matching answer behind a stale one in the same TCP segment is lost"), key="cemi-received|frame-dropped-between-answers")
     # (b) the acknowledgement shortcut trusts that future
     sr = repo.func(DM, "UDPDeviceManagementConnection._send_request")
     uses_done = any(isinstance(n, ast.Assign) and any(isinstance(t, ast.Name) for t in n.targets) and "self._pending.done()" in ast.unparse(n.value) for n in walk_local(sr.node))
-    matcher_first = bool(sets) and any(n.kind == "test" and n.ast is not None and any(isinstance(c, ast.Call) and "match" in call_name(c) for c in ast.walk(n.ast)) and cfg.dominates(n.id, sets[0].id) for n in cfg.nodes)
     chk.ob("acknowledgement-is-not-inferred-from-an-unmatched-answer", sr.site(), not uses_done or matcher_first, "UDP _send_request takes a completed `_pending` as proof that the server accepted the unacknowledged request" + ("; _cemi_received completes it only with frames the request's matcher accepts" if matcher_first else ", but _cemi_received completes it with any non-indication frame - the late answer to an earlier request stops the repetition of a lost one and advances the counter"), key="udp|ack-inferred-from-unmatched-answer")
 
 
